@@ -370,6 +370,39 @@ def _path_call_count(f, start, pred, stop_pred):
     return go(start)
 
 
+def _carried_status(prog, f, exit_call):
+    """`process::exit(x.status)`: the constants stored in that field by every
+    construction of the struct, split into failures built where an evaluation /
+    parse error is rendered ("script") and the rest (usage errors)."""
+    if not mir.is_place_operand(exit_call.args[0]):
+        return None
+    fld = None
+    for pl in [mir.op_place(exit_call.args[0])] + [
+            mir.op_place(s[2][1]) for b in f.blocks for s in b["s"]
+            if s[0] == "=" and not s[1][1] and s[1][0] == mir.op_place(exit_call.args[0])[0]
+            and s[2][0] == "use" and mir.is_place_operand(s[2][1])]:
+        for pr in pl[1]:
+            if pr != "*" and pr[0] == "f" and len(pr) > 4 and pr[4] and not pr[4].startswith("std::"):
+                fld = (pr[4], pr[1], pr[3])
+    if fld is None:
+        return None
+    adt, idx, fname = fld
+    graph = prog.call_graph()
+    rpaths = {g.path for g, _, _ in renderers(prog)}
+    script, other = set(), set()
+    n = 0
+    for g in prog.hand_fns():
+        for bb, i, pl, kd, aops, sp in g.aggregates(adt):
+            n += 1
+            v = g.const_value(mir.op_const(aops[idx])) if not mir.is_place_operand(aops[idx]) \
+                else (eval(g.canon_op(aops[idx])[0][1]) if g.canon_op(aops[idx])[0][0] == "const" else None)
+            reach = prog.reachable_from([g.path], graph)
+            (script if reach & rpaths else other).add(v)
+    if not n:
+        return None
+    return {"adt": adt, "field": fname, "script": script, "other": other}
+
+
 def rule_L5(ctx):
     prog = ctx.prog
     r = RuleResult("L5", "failure exit: exactly one stderr write then "
@@ -418,6 +451,14 @@ def rule_L5(ctx):
         exits = [c for c in f.calls() if c.bb in region and is_exit(c)]
         returns = [b for b in region if f.term(b)["k"] == "return"]
         codes = set(mir.const_val(c.args[0]) for c in exits if c.args)
+        carried = None
+        if codes == {None} and len(exits) == 1:
+            # the status travels in a field of the failure value (`exit(failure.status)`)
+            carried = _carried_status(prog, f, exits[0])
+            if carried is not None:
+                codes = carried["script"] or {None}
+                r.inst("main: exit status read from %s.%s; script failures carry %s, other failures %s"
+                       % (carried["adt"], carried["field"], sorted(carried["script"]), sorted(carried["other"])))
         stdout = [c for c in f.calls() if c.bb in region and
                   ((c.res or "").startswith("std::io::_print")
                    or "stdout" in eff.get(c.res, ()))]
